@@ -652,11 +652,17 @@ func (e *Exec) inline(s *State, site ssa.Instruction, callee *ssa.Function, args
 	if callee.Pkg == nil || !strings.HasPrefix(callee.Pkg.Pkg.Path(), modPath) || true {
 		r.inlined[callee.String()] = true
 	}
-	sub := &Exec{p: e.p, c: e.c, fn: callee, spec: e.p.specFor(callee), root: r, name: e.name + ">" + callee.Name(), depth: e.depth + 1}
+	sub := &Exec{p: e.p, c: e.c, fn: callee, spec: e.p.specForIn(callee, r.fn), root: r, name: e.name + ">" + callee.Name(), depth: e.depth + 1}
 	sub.loopOrd = loopOrdinals(callee)
+	if callee.Parent() != nil {
+		sub.rootScoped = true
+	} else if callee.Pkg != nil && r.fn.Pkg != nil {
+		_, sub.rootScoped = e.p.cs.Specs[callee.Pkg.Pkg.Path()+"::"+r.fn.RelString(r.fn.Pkg.Pkg)+">"+callee.RelString(callee.Pkg.Pkg)]
+	}
 	st0 := s.clone()
 	saved := s.regs
 	st0.regs = map[ssa.Value]Val{}
+	st0.outer = append(append([]map[ssa.Value]Val{}, s.outer...), saved)
 	// scalar locals of the caller stay in vars (keyed by Alloc, no clash)
 	if cv != nil {
 		for i, fvar := range callee.FreeVars {
@@ -748,6 +754,13 @@ type loopInfo struct {
 func (e *Exec) envAt(s *State, locals bool) *Env {
 	env := &Env{x: e, fn: e.fn, cur: s, old: e.entry, vars: e.paramVars(), locals: locals}
 	old := &Env{x: e, fn: e.fn, cur: e.entry, old: e.entry, vars: env.vars}
+	if e != e.root && e.rootScoped {
+		// a callee that only exists inside the root (a closure, or a helper with a
+		// "Root>callee" contract): old() is the root's entry state, names are the root's
+		r := e.root
+		old = &Env{x: r, fn: r.fn, cur: r.entry, old: r.entry, vars: r.paramVars()}
+		env.old = r.entry
+	}
 	old.oldEnv = old
 	env.oldEnv = old
 	return env
